@@ -7,9 +7,9 @@ open Tak (Err)
 
 variable {P M : Type}
 
-/-- the engine has no transposition table; `D` is the (never written) `Depth` field of the running statistics,
-whose `Canceled` field is never written either -/
-def NT (D : Int) (s : Eng M) : Prop := s.hasTable = false ∧ (s.st.depth = D ∧ s.st.canceled = false)
+/-- the engine has no transposition table; `D` is the value of the two fields `Depth`, `Canceled` of the running statistics
+that the search never writes -/
+def NT (D : Int × Bool) (s : Eng M) : Prop := s.hasTable = false ∧ (s.st.depth, s.st.canceled) = D
 
 /-- the cancel flag is never set during the call -/
 def NoCancel (o : Oracle M) : Prop := ∀ l e, o.cancel l e = false
@@ -69,11 +69,11 @@ theorem negamax_succ (g : Game P M) (d : Nat) (p : P) (h : g.over p = false) :
 def Attains (g : Game P M) (p : P) (d : Nat) (r : Res M) : Prop :=
   ∃ m rest c, r.1 = some (m :: rest) ∧ g.apply p m = .ok c ∧ r.2 = -(negamax g (d - 1) c)
 
-def PvPost (g : Game P M) (D : Int) (p : P) (d : Nat) (α β : Int) (x : Res M × Eng M) : Prop :=
+def PvPost (g : Game P M) (D : Int × Bool) (p : P) (d : Nat) (α β : Int) (x : Res M × Eng M) : Prop :=
   NT D x.2 ∧ PC x.1.2 (negamax g d p) α β ∧
   (1 ≤ d → g.over p = false → α < x.1.2 → x.1.2 < β → Attains g p d x.1)
 
-def ZwPost (g : Game P M) (D : Int) (p : P) (d : Nat) (α : Int) (x : Res M × Eng M) : Prop :=
+def ZwPost (g : Game P M) (D : Int × Bool) (p : P) (d : Nat) (α : Int) (x : Res M × Eng M) : Prop :=
   NT D x.2 ∧ ZC x.1.2 (negamax g d p) α
 
 /-- contract of a `pvSearch`-like function -/
@@ -88,14 +88,14 @@ def ZwOK (g : Game P M) (f : ZwFn P M) : Prop :=
 
 /-! ### small facts about the state operations -/
 
-theorem ttGet_nt {D : Int} {s : Eng M} (h : NT D s) (k : H) : ttGet s k = .ok none := by
+theorem ttGet_nt {D : Int × Bool} {s : Eng M} (h : NT D s) (k : H) : ttGet s k = .ok none := by
   unfold ttGet; simp [h.1]
 
-theorem ttProbe_nt (g : Game P M) (p : P) (ply : Nat) (depth α β : Int) {D : Int} {s : Eng M} (h : NT D s) :
+theorem ttProbe_nt (g : Game P M) (p : P) (ply : Nat) (depth α β : Int) {D : Int × Bool} {s : Eng M} (h : NT D s) :
     ttProbe g p ply depth α β s = .ok (.inr none, s) := by
   unfold ttProbe; rw [ttGet_nt h]
 
-theorem ttPut_nt (o : Oracle M) {D : Int} {s : Eng M} (h : NT D s) (k : H) : ttPut o s k = .ok (none, s) := by
+theorem ttPut_nt (o : Oracle M) {D : Int × Bool} {s : Eng M} (h : NT D s) (k : H) : ttPut o s k = .ok (none, s) := by
   unfold ttPut; simp [h.1]
 
 theorem load_nc {o : Oracle M} (h : NoCancel o) (s : Eng M) : load o s = (false, { s with loads := s.loads + 1 }) := by
@@ -105,19 +105,19 @@ theorem afterChild_nc {σ : Type} {o : Oracle M} (h : NoCancel o) (a : σ) (s : 
     afterChild o a s = (.next a, { s with loads := s.loads + 1 }) := by
   unfold afterChild; rw [load_nc h]; rfl
 
-theorem ite_depth (c : Prop) [Decidable c] (a b : Stats) (D : Int)
-    (ha : a.depth = D ∧ a.canceled = false) (hb : b.depth = D ∧ b.canceled = false) :
-    (if c then a else b).depth = D ∧ (if c then a else b).canceled = false := by
+theorem ite_depth (c : Prop) [Decidable c] (a b : Stats) (D : Int × Bool)
+    (ha : (a.depth, a.canceled) = D) (hb : (b.depth, b.canceled) = D) :
+    ((if c then a else b).depth, (if c then a else b).canceled) = D := by
   split <;> assumption
 
-theorem recordCut_nt [DecidableEq M] {D : Int} {s : Eng M} (h : NT D s) (m : M) (mv ply : Nat) :
+theorem recordCut_nt [DecidableEq M] {D : Int × Bool} {s : Eng M} (h : NT D s) (m : M) (mv ply : Nat) :
     Sat (recordCut s m mv ply) (fun s' => NT D s') := by
   unfold recordCut
   simp only []
-  have hd : ∀ (x y z : Stats), (x.depth = D ∧ x.canceled = false) → (y.depth = D ∧ y.canceled = false) →
-      (z.depth = D ∧ z.canceled = false) →
-      (if (mv == 1) = true then x else if (mv == 2) = true then y else z).depth = D ∧
-      (if (mv == 1) = true then x else if (mv == 2) = true then y else z).canceled = false :=
+  have hd : ∀ (x y z : Stats), (x.depth, x.canceled) = D → (y.depth, y.canceled) = D →
+      (z.depth, z.canceled) = D →
+      ((if (mv == 1) = true then x else if (mv == 2) = true then y else z).depth,
+       (if (mv == 1) = true then x else if (mv == 2) = true then y else z).canceled) = D :=
     fun x y z hx hy hz => ite_depth _ _ _ _ hx (ite_depth _ _ _ _ hy hz)
   split
   · split
@@ -125,7 +125,7 @@ theorem recordCut_nt [DecidableEq M] {D : Int} {s : Eng M} (h : NT D s) (m : M) 
     · exact Sat.ok ⟨h.1, hd _ _ _ h.2 h.2 h.2⟩
   · exact Sat.ok ⟨h.1, hd _ _ _ h.2 h.2 h.2⟩
 
-theorem leaf_nt (g : Game P M) (p : P) (over : Bool) {D : Int} {s : Eng M} (h : NT D s) :
+theorem leaf_nt (g : Game P M) (p : P) (over : Bool) {D : Int × Bool} {s : Eng M} (h : NT D s) :
     NT D (leaf g p over s).2 ∧ (leaf g p over s).1.2 = g.eval p := by
   unfold leaf; exact ⟨⟨h.1, ite_depth _ _ _ _ h.2 h.2⟩, rfl⟩
 
@@ -133,7 +133,7 @@ theorem leaf_nt (g : Game P M) (p : P) (over : Bool) {D : Int} {s : Eng M} (h : 
 /-! ### one child of a PV node (the prototype's `childVal`) -/
 
 theorem pvChild_spec {g : Game P M} {cpv : PvFn P M} {czw : ZwFn P M} (hp : PvOK g cpv) (hz : ZwOK g czw)
-    (i : Nat) (child : P) (ply : Nat) (depth : Int) (tail : List M) (α β : Int) (D : Int) (s : Eng M)
+    (i : Nat) (child : P) (ply : Nat) (depth : Int) (tail : List M) (α β : Int) (D : Int × Bool) (s : Eng M)
     (hs : NT D s) (hab : α < β) (hl : Live g (depth - 1).toNat child) :
     Sat (pvChild cpv czw i child ply depth tail α β s)
       (fun x => NT D x.2 ∧ PC (-x.1.2) (-(negamax g (depth - 1).toNat child)) α β) := by
@@ -169,7 +169,7 @@ theorem pvChild_spec {g : Game P M} {cpv : PvFn P M} {czw : ZwFn P M} (hp : PvOK
 
 /-- invariant of the loop: the running `α` is either still the initial one, or the exact value of the
 legal child whose move heads `best` -/
-def PvInv (g : Game P M) (D : Int) (p : P) (d' : Nat) (α0 β : Int) (a : PvAcc M) (s : Eng M) : Prop :=
+def PvInv (g : Game P M) (D : Int × Bool) (p : P) (d' : Nat) (α0 β : Int) (a : PvAcc M) (s : Eng M) : Prop :=
   NT D s ∧ a.α < β ∧
   ((a.α = α0 ∧ a.improved = false) ∨
    (a.improved = true ∧ α0 < a.α ∧
@@ -179,12 +179,12 @@ def PvInv (g : Game P M) (D : Int) (p : P) (d' : Nat) (α0 β : Int) (a : PvAcc 
 def PvCov (g : Game P M) (d' : Nat) (a : PvAcc M) (c : P) : Prop := -(negamax g d' c) ≤ a.α
 
 /-- on a cutoff some legal child really has a value ≥ β -/
-def PvQb (g : Game P M) (D : Int) (p : P) (d' : Nat) (β : Int) (a : PvAcc M) (s : Eng M) : Prop :=
+def PvQb (g : Game P M) (D : Int × Bool) (p : P) (d' : Nat) (β : Int) (a : PvAcc M) (s : Eng M) : Prop :=
   NT D s ∧ β ≤ a.α ∧ ∃ m c, g.apply p m = .ok c ∧ β ≤ -(negamax g d' c)
 
 theorem pvBody_ok [DecidableEq M] {g : Game P M} {o : Oracle M} {cpv : PvFn P M} {czw : ZwFn P M}
     (hnc : NoCancel o) (hp : PvOK g cpv) (hz : ZwOK g czw)
-    (D : Int) (p : P) (ply : Nat) (depth α0 β : Int)
+    (D : Int × Bool) (p : P) (ply : Nat) (depth α0 β : Int)
     (hl : ∀ m c, g.apply p m = .ok c → Live g (depth - 1).toNat c) :
     BodyOK g p (pvBody g o cpv czw ply depth β false)
       (PvInv g D p (depth - 1).toNat α0 β) (PvCov g (depth - 1).toNat) (PvQb g D p (depth - 1).toNat β)
@@ -229,11 +229,11 @@ theorem pvBody_ok [DecidableEq M] {g : Game P M} {o : Oracle M} {cpv : PvFn P M}
     intro c' hc'; subst hc'; unfold PvCov; simp only []; omega
 
 
-theorem pvStore_nt (o : Oracle M) (k : H) (depth β : Int) (a : PvAcc M) {D : Int} {s : Eng M} (h : NT D s) :
+theorem pvStore_nt (o : Oracle M) (k : H) (depth β : Int) (a : PvAcc M) {D : Int × Bool} {s : Eng M} (h : NT D s) :
     pvStore o k depth β a s = .ok ((some a.best, a.α), s) := by
   unfold pvStore; rw [ttPut_nt o h]; rfl
 
-theorem pvInitBest_nt (ply : Nat) (pv : List M) {D : Int} {s : Eng M} (h : NT D s) :
+theorem pvInitBest_nt (ply : Nat) (pv : List M) {D : Int × Bool} {s : Eng M} (h : NT D s) :
     Sat (pvInitBest ply pv s) (fun x => NT D x.2) := by
   unfold pvInitBest
   split
@@ -357,16 +357,16 @@ theorem pvNode_ok [DecidableEq M] {g : Game P M} (hg : GameOK g) {cfg : Cfg} (hp
 
 /-! ### zero-window nodes -/
 
-def ZwInv (D : Int) (a : ZwAcc M) (s : Eng M) : Prop := NT D s ∧ a.didCut = false
+def ZwInv (D : Int × Bool) (a : ZwAcc M) (s : Eng M) : Prop := NT D s ∧ a.didCut = false
 
 def ZwCov (g : Game P M) (d' : Nat) (α : Int) (_a : ZwAcc M) (c : P) : Prop := -(negamax g d' c) ≤ α
 
-def ZwQb (g : Game P M) (D : Int) (p : P) (d' : Nat) (α : Int) (a : ZwAcc M) (s : Eng M) : Prop :=
+def ZwQb (g : Game P M) (D : Int × Bool) (p : P) (d' : Nat) (α : Int) (a : ZwAcc M) (s : Eng M) : Prop :=
   NT D s ∧ a.didCut = true ∧ ∃ m c, g.apply p m = .ok c ∧ α < -(negamax g d' c)
 
 theorem zwBody_ok [DecidableEq M] {g : Game P M} {o : Oracle M} {czw : ZwFn P M}
     (hnc : NoCancel o) (hz : ZwOK g czw)
-    (D : Int) (p : P) (ply : Nat) (depth α : Int) (cut : Bool)
+    (D : Int × Bool) (p : P) (ply : Nat) (depth α : Int) (cut : Bool)
     (hl : ∀ m c, g.apply p m = .ok c → Live g (depth - 1).toNat c) :
     BodyOK g p (zwBody o czw ply depth α cut)
       (ZwInv D) (ZwCov g (depth - 1).toNat α) (ZwQb g D p (depth - 1).toNat α) (fun _ _ => False) := by
@@ -396,7 +396,7 @@ theorem zwBody_ok [DecidableEq M] {g : Game P M} {o : Oracle M} {czw : ZwFn P M}
     refine ⟨⟨hnt', hdc⟩, fun c' hc' => hc', ?_⟩
     intro c' hc'; subst hc'; unfold ZwCov; omega
 
-theorem zwStore_nt (o : Oracle M) (k : H) (depth α : Int) (a : ZwAcc M) {D : Int} {s : Eng M} (h : NT D s) :
+theorem zwStore_nt (o : Oracle M) (k : H) (depth α : Int) (a : ZwAcc M) {D : Int × Bool} {s : Eng M} (h : NT D s) :
     zwStore o k depth α a s = .ok ((some a.best, if a.didCut then α + 1 else α), s) := by
   unfold zwStore; rw [ttPut_nt o h]; rfl
 
